@@ -377,7 +377,11 @@ inline void storage_sequences(const vf::opts &o, vf::report &R, uint64_t seqs) {
                 }
                 if (res.err.empty() && tracked::live.load() != live0) res.err = std::string("extra object (") + tname + ") not destroyed with the frame (live delta " + std::to_string(tracked::live.load() - live0) + ")";
                 // never started: destroyed with the frame as well
-                { auto coro2 = st_body<monitored<ES>, 2>(st, C, 8, nullptr); (void)coro2; }
+                {   // (the object's address escapes through an opaque asm: clang would otherwise elide the heap frame of a coroutine that never
+                    // leaves this scope, and with the frame the storage call and the extra object)
+                    auto coro2 = st_body<monitored<ES>, 2>(st, C, 8, nullptr);
+                    asm volatile("" : : "r"(&coro2) : "memory");
+                }
                 if (res.err.empty() && tracked::live.load() != live0) res.err = "extra object of a never started coroutine not destroyed exactly once";
             };
             struct tag8 { using type = tracked; }; struct tag16 { using type = tracked16; };
